@@ -194,7 +194,7 @@ func init() {
 				Register(&Scenario{
 					Name:  name("race/%s/%s+%s", base.name, a.name, b.name),
 					Props: []string{"C19"}, Race: true, Only: only,
-					Mode:  "NB", Quick: quick, Thorough: 2, Shards: 1,
+					Mode: "NB", Quick: quick, Thorough: 2, Shards: 1,
 					Body: func(h *H) {
 						h.NoRest = true
 						e := base.setup(h)
@@ -236,26 +236,37 @@ func init() {
 				if base.name == "inflight" || base.name == "batch" {
 					only = ""
 				}
+				body := func(h *H) {
+					e := base.setup(h)
+					go func() { a.f(e) }()
+					go func() { b.f(e) }()
+					h.Quiesce(false)
+					for _, jr := range h.Jobs {
+						h.Open(jr.Tag)
+					}
+					for t := 100; t < 340; t++ {
+						h.Open(t)
+					}
+					h.Quiesce(false)
+					e.w.Restart()
+					h.End()
+				}
 				Register(&Scenario{
 					Name:  name("pair/%s/%s+%s", base.name, a.name, b.name),
 					Props: props, Only: only,
-					Mode:  "NB", Quick: 1, Thorough: 2, Shards: 1,
-					Body: func(h *H) {
-						e := base.setup(h)
-						go func() { a.f(e) }()
-						go func() { b.f(e) }()
-						h.Quiesce(false)
-						for _, jr := range h.Jobs {
-							h.Open(jr.Tag)
-						}
-						for t := 100; t < 340; t++ {
-							h.Open(t)
-						}
-						h.Quiesce(false)
-						e.w.Restart()
-						h.End()
-					},
+					Mode: "NB", Quick: 1, Thorough: 2, Shards: 1,
+					Body: body,
 				})
+				if only == "thorough" {
+					// the other base states belong to the quick tier of the pool / counter properties (all three pool
+					// defects this family found were in them)
+					Register(&Scenario{
+						Name:  name("pairq/%s/%s+%s", base.name, a.name, b.name),
+						Props: []string{"C18", "C17", "C03"}, Only: "quick",
+						Mode: "NB", Quick: 1, Thorough: 1, Shards: 1,
+						Body: body,
+					})
+				}
 			}
 		}
 	}
